@@ -70,10 +70,26 @@ def set_array_name_format(value):
     _array_name_format = value
 
 
-_any_dtype = object()
+class _Sentinel:
+    """A unique marker object, compared by identity. It is pickled by reference to its
+    module-level name, so that identity survives even when an annotation class is
+    serialised by value (as `cloudpickle` does for dynamically-created classes).
+    """
 
-_anonymous_dim = object()
-_anonymous_variadic_dim = object()
+    def __init__(self, name: str):
+        self._name = name
+
+    def __repr__(self):
+        return self._name
+
+    def __reduce__(self):
+        return self._name
+
+
+_any_dtype = _Sentinel("_any_dtype")
+
+_anonymous_dim = _Sentinel("_anonymous_dim")
+_anonymous_variadic_dim = _Sentinel("_anonymous_variadic_dim")
 
 
 class _DimType(enum.Enum):
